@@ -38,6 +38,11 @@ type c35Case struct {
 	FreeFirst bool         `json:"free_first,omitempty"` // free the first pre-allocation again (a hole before the write)
 	Neighbour bool         `json:"neighbour,omitempty"`  // another batch is stored before the one under test
 	Ptrs      []c35Ptr     `json:"ptrs,omitempty"`       // malformed / displaced pointers tried after the round trip
+	// Twin, when set, is the neighbour stored first in the same segment: a
+	// batch whose schema is the tested one's with a different fixed-size-binary
+	// width and other field metadata — near enough to be confused with it by
+	// anything that remembers schemas by a digest.
+	Twin *lib.BatchIPC `json:"twin,omitempty"`
 }
 
 // ---- schema shapes ----
@@ -129,6 +134,21 @@ func genC35(t *rapid.T) c35Case {
 	default:
 		schema = lib.GenSchema(t, 1, 6, 2, lib.TypeOpts{NestedDict: true})
 	}
+	var twinSchema *arrow.Schema
+	if rapid.IntRange(0, 5).Draw(t, "twin?") == 0 {
+		base := lib.GenSchema(t, 0, 3, 1, lib.TypeOpts{NoDict: true})
+		w := rapid.IntRange(1, 24).Draw(t, "fsbw")
+		w2 := w + rapid.IntRange(1, 16).Draw(t, "fsbdw")
+		pos := rapid.IntRange(0, base.NumFields()).Draw(t, "fsbpos")
+		mk := func(width int, unit string) *arrow.Schema {
+			f := arrow.Field{Name: "fsb", Type: &arrow.FixedSizeBinaryType{ByteWidth: width}, Metadata: arrow.NewMetadata([]string{"unit"}, []string{unit})}
+			fields := append([]arrow.Field{}, base.Fields()[:pos]...)
+			fields = append(fields, f)
+			fields = append(fields, base.Fields()[pos:]...)
+			return arrow.NewSchema(fields, nil)
+		}
+		schema, twinSchema = mk(w, "s"), mk(w2, "ms")
+	}
 	rows := rapid.IntRange(1, 24).Draw(t, "rows")
 	if rapid.IntRange(0, 19).Draw(t, "empty?") == 7 {
 		rows = 0
@@ -151,6 +171,11 @@ func genC35(t *rapid.T) c35Case {
 	c := c35Case{Batch: lib.PackBatch(b)}
 	enc := len(c.Batch.IPC)
 	c.Neighbour = rapid.IntRange(0, 2).Draw(t, "neighbour") != 0
+	if twinSchema != nil {
+		tw := lib.PackBatch(lib.GenBatch(t, twinSchema, rapid.IntRange(1, 8).Draw(t, "twinrows")))
+		c.Twin = &tw
+		c.Neighbour = true
+	}
 	np := rapid.IntRange(0, 3).Draw(t, "npre")
 	pre := 0
 	for i := 0; i < np; i++ {
@@ -161,6 +186,9 @@ func genC35(t *rapid.T) c35Case {
 	c.FreeFirst = np > 0 && rapid.Bool().Draw(t, "freefirst")
 	if c.Neighbour {
 		pre += 1024
+	}
+	if c.Twin != nil {
+		pre += len(c.Twin.IPC) + 512
 	}
 	switch rapid.IntRange(0, 9).Draw(t, "segclass") {
 	case 9:
@@ -422,6 +450,12 @@ func runC35(c c35Case) (out lib.Outcome) {
 	var l2 int
 	if c.Neighbour {
 		nb := lib.MakeOut(lib.OutSchema, 3, 2, 40)
+		if c.Twin != nil {
+			tw := c.Twin.Unpack()
+			defer tw.Rec.Release()
+			nb = tw.Rec
+			out.Label("twin-neighbour")
+		}
 		if off, n, ok, werr := seg.AllocateAndWrite(nb); werr == nil && ok {
 			o2, l2 = off, n
 		}
@@ -514,6 +548,12 @@ func runC35(c c35Case) (out lib.Outcome) {
 	if d := lib.BatchDiff(orig.Rec, res); d != "" {
 		out.Violate(lib.Keyf("C35", "roundtrip-differs", shape), "batch read back from shm differs (%s): %s", c.Batch.Desc, d)
 		return
+	}
+	for i, f := range orig.Rec.Schema().Fields() {
+		if g := res.Schema().Field(i); !f.Metadata.Equal(g.Metadata) {
+			out.Violate(lib.Keyf("C35", "roundtrip-field-metadata", shape), "field %q read back from shm with metadata %v, written with %v", f.Name, g.Metadata, f.Metadata)
+			return
+		}
 	}
 	var gotMeta []string
 	if wm, ok := res.(arrow.RecordBatchWithMetadata); ok {
@@ -608,7 +648,7 @@ var propC35 = lib.Prop[c35Case]{
 		"Non-trivial: a dictionary below the top level, or a pointer whose offset+length overflows uint64.",
 	Gen:          genC35,
 	Run:          runC35,
-	Essential:    []string{"roundtrip", "no-fit", "dict:none", "dict:top", "dict:nested", "dict:both", "overflowing-pointer", "verdict:must-error", "verdict:any", "ptr:beyond", "ptr:header", "ptr:into-other", "ptr:neg-len"},
+	Essential:    []string{"roundtrip", "twin-neighbour", "no-fit", "dict:none", "dict:top", "dict:nested", "dict:both", "overflowing-pointer", "verdict:must-error", "verdict:any", "ptr:beyond", "ptr:header", "ptr:into-other", "ptr:neg-len"},
 	EssentialMin: 300,
 	Assumptions: []string{"custom metadata keys of a batch are distinct", "arrow-go's IPC reader/writer (used by my codec) is trusted",
 		"a signed or zero-padded decimal naming the true region, and an in-segment region other than the written one, may be refused or resolved"},
